@@ -53,6 +53,8 @@ def eval_bool(t, assign):
     if t[0] == "not":
         v = eval_bool(t[1], assign)
         return None if v is None else (not v)
+    if t[0] == "call" and t[1] == "bool" and len(t[2]) == 1:
+        return eval_bool(t[2][0], assign)
     if t[0] == "bool":
         vals = [eval_bool(x, assign) for x in t[2]]
         if t[1] == "or":
@@ -79,6 +81,9 @@ def eval_term(t, assign):
         if c is None:
             return t
         return eval_term(t[2] if c else t[3], assign)
+    if t[0] == "call" and t[1] == "bool" and len(t[2]) == 1:
+        v = eval_bool(t[2][0], assign)
+        return t if v is None else const(v)
     return t
 
 
